@@ -154,6 +154,7 @@ type Exec struct {
 	unsatMemo map[uint32]*PCNode
 	symAddr bool
 	cur *State
+	progress bool
 }
 
 func NewExec(prog *ssa.Program, solverKind string, timeoutMs int) (*Exec, error) {
@@ -171,6 +172,7 @@ func NewExec(prog *ssa.Program, solverKind string, timeoutMs int) (*Exec, error)
 		params: map[string]int{}, violSeen: map[string]int{}, unwind: 200, maxSteps: 2000000, maxPaths: 1000000, maxDepth: 200,
 		allocCap: 65536, mapOrders: true, unsatMemo: map[uint32]*PCNode{}}
 	ex.resetStats()
+	ex.progress = os.Getenv("VCHECK_PROGRESS") != ""
 	if v := os.Getenv("VCHECK_SLOW"); v != "" {
 		ms, _ := strconv.Atoi(v)
 		s.SlowThreshold = time.Duration(ms) * time.Millisecond
@@ -763,6 +765,9 @@ func (ex *Exec) Explore(st0 *State, fn *ssa.Function, args []Value) {
 		end := ex.runPath(st)
 		ex.stats.Paths[end.kind]++
 		npaths++
+		if ex.progress && npaths%50 == 0 {
+			fmt.Fprintf(os.Stderr, "progress: %d paths %v, %d pending, %d instrs, %d queries, solver %v\n", npaths, ex.stats.Paths, len(ex.work), ex.stats.Instrs, ex.solver.NQueries, ex.solver.Time.Round(time.Millisecond))
+		}
 		if end.kind == "unsupported" || end.kind == "truncated" {
 			ex.noteEnd(end.kind, end.msg+" @ "+ex.site(st))
 		}
